@@ -1131,6 +1131,21 @@ func (c *Ctx) ResponsesDoc() *Doc {
 		c.Responses(op, true)
 		d.Paths["/"] = &PathItem{Get: op}
 	}
-	// non-canonical header names on some responses
+	// goag documents one restriction on shared responses: a component is used either only
+	// as `default` or only under fixed statuses. Now and then a spec breaks it (either
+	// order): goag may refuse such a spec - but if it accepts it, every operation still
+	// writes what it documents
+	if cs := c.comps(); len(cs.Responses) > 0 && rapid.IntRange(0, 5).Draw(t, "break_default_numbered_restriction") == 0 {
+		name := rapid.SampledFrom(SortedKeys(cs.Responses)).Draw(t, "restricted_component")
+		first, second := "404", "default"
+		if c.respUse()[c.responseTarget(name)] == "D" || rapid.IntRange(0, 2).Draw(t, "restriction_order") == 0 {
+			first, second = "default", "404"
+		}
+		p1, p2 := "/"+c.PlainName("aa", "restr"), "/"+c.PlainName("zz", "restr")
+		d.Paths[p1] = &PathItem{Get: &Operation{Responses: map[string]*Response{"200": {Description: Str("ok")}, first: {Ref: RefResponses + name}}}}
+		d.Paths[p2] = &PathItem{Get: &Operation{Responses: map[string]*Response{"200": {Description: Str("ok")}, second: {Ref: RefResponses + name}}}}
+		c.MayBeRefused = true
+		c.Tag("responses:default-and-numbered-restriction-broken")
+	}
 	return d
 }
